@@ -20,7 +20,7 @@ pub fn run(ctx: &mut Ctx) -> bool {
             }
         }
         "C02" => {
-            ctx.rule = "Cases are (parent position, all generated successors): parents on walks of the engine's own successors (incl. promotion-rich walks), constructive placements, E1/E2 families. Oracle: apply() of the independent rules implementation; each successor must equal it in placement, side to move, four rights, en passant target, both cached king squares, and carry a promotion piece iff the move promotes. Non-trivial = parent offers a castling, en passant, promotion, double step, king move or corner move, or was itself reached by a promotion; distinct by (position, parent-was-promotion).".into();
+            ctx.rule = "Cases are (parent position, all generated successors of the full mode, and every successor the capture-only mode hands out): parents on walks of the engine's own successors (incl. promotion-rich walks), constructive placements, E1/E2 families. Oracle: apply() of the independent rules implementation; each successor must equal it in placement, side to move, four rights, en passant target, both cached king squares, and carry a promotion piece iff the move promotes; a successor whose board is the position after one legal move while its descriptor names another is a descriptor defect. Non-trivial = parent offers a castling, en passant, promotion, double step, king move or corner move, or was itself reached by a promotion; distinct by (position, parent-was-promotion).".into();
             ctx.assumptions = vec!["oracle validated each run against published perft totals".into()];
             movegen::run_c01_c02(ctx, movegen::Which::C02);
             if ctx.tier == crate::runner::Tier::Thorough {
